@@ -3,4 +3,5 @@ let () =
   | _ :: "queue" :: mode :: _ -> Qdriver.main mode
   | _ :: "pool" :: args -> Pdriver.main args
   | _ :: "ctrl" :: args -> Cdriver.main args
+  | _ :: "srv" :: args -> Sdriver.main args
   | _ -> prerr_endline "usage: driver (queue|pool) (model|monitor <Cxx>) < trace"; exit 2
